@@ -9,6 +9,22 @@
 #include <thread>
 #include <vector>
 
+#ifdef LIBCSD_VERIF
+// Verification hook: the harness may define this function to observe (and
+// delay) the threads at their synchronisation points. Never defined otherwise.
+extern "C" void libcsd_verif_point(const char *where, long value)
+    __attribute__((weak));
+#define LIBCSD_VERIF_POINT(where, value)                                       \
+  do {                                                                         \
+    if (libcsd_verif_point)                                                    \
+      libcsd_verif_point((where), (long)(value));                              \
+  } while (0)
+#else
+#define LIBCSD_VERIF_POINT(where, value)                                       \
+  do {                                                                         \
+  } while (0)
+#endif
+
 class WorkerQueue {
   std::mutex mutex;
   std::deque<std::function<void()>> q;
@@ -17,10 +33,12 @@ public:
   void add_task(std::function<void()> &fun) {
     std::lock_guard lg(mutex);
     q.push_back(fun);
+    LIBCSD_VERIF_POINT("q.push", q.size());
   }
 
   bool empty() {
     std::lock_guard lg(mutex);
+    LIBCSD_VERIF_POINT("q.empty", q.empty());
     return q.empty();
   }
 
@@ -28,6 +46,7 @@ public:
     std::lock_guard lg(mutex);
     auto fun = q.front();
     q.pop_front();
+    LIBCSD_VERIF_POINT("q.pop", q.size());
     return fun;
   }
 };
@@ -73,17 +92,24 @@ private:
 
   void run() {
     while (!stopped() || !queue.empty()) {
+      LIBCSD_VERIF_POINT("w.loop", worker_id);
       std::unique_lock<std::mutex> ul(shared_mutex);
+      LIBCSD_VERIF_POINT("w.locked", worker_id);
       queue_cv.wait(ul, [this]() { return stopped() || !queue.empty(); });
+      LIBCSD_VERIF_POINT("w.awake", worker_id);
       if (stopped() && queue.empty())
         break;
       if (queue.empty())
         continue;
       auto task = queue.pop();
       ul.unlock();
+      LIBCSD_VERIF_POINT("w.unlocked", worker_id);
       queue_cv.notify_all();
+      LIBCSD_VERIF_POINT("w.task", worker_id);
       task();
+      LIBCSD_VERIF_POINT("w.taskdone", worker_id);
     }
+    LIBCSD_VERIF_POINT("w.exit", worker_id);
     queue_cv.notify_all();
   }
 };
@@ -104,11 +130,14 @@ public:
   }
 
   void add_task(std::function<void()> &&task) {
+    LIBCSD_VERIF_POINT("p.add", 0);
     {
       std::lock_guard lg(shared_mutex);
       queue.add_task(task);
     }
+    LIBCSD_VERIF_POINT("p.added", 0);
     queue_cv.notify_all();
+    LIBCSD_VERIF_POINT("p.notified", 0);
   }
 
   void wait_workers() {
@@ -117,12 +146,15 @@ public:
   }
 
   void stop_all_workers() {
+    LIBCSD_VERIF_POINT("p.stop", 0);
     {
       std::lock_guard lg(shared_mutex);
       for (auto &w : workers)
         w->stop();
     }
+    LIBCSD_VERIF_POINT("p.stopped", 0);
     queue_cv.notify_all();
+    LIBCSD_VERIF_POINT("p.stopnotified", 0);
   }
 
   size_t workers_size() const { return workers.size(); }
